@@ -35,7 +35,7 @@ def correspondence(tier, rng):
 
 def degenerate(rng, X, y, ykind):
     n, p = X.shape
-    kind = rng.choice(["zero-col", "dup-col", "const-col", "p>n", "one-feature", "const-y", "zero-y", "scales"])
+    kind = rng.choice(["zero-col", "dup-col", "const-col", "p>n", "one-feature", "const-y", "zero-y", "scales", "zero-sum-cols", "const+contrasts"])
     X = X.copy()
     if kind == "zero-col":
         X[:, rng.randrange(p)] = 0.0
@@ -54,6 +54,16 @@ def degenerate(rng, X, y, ykind):
         y = np.full_like(y, 3.0)
     elif kind == "zero-y" and ykind == "real":
         y = np.zeros_like(y)
+    elif kind in ("zero-sum-cols", "const+contrasts"):
+        # balanced +-c contrast columns (every column sums to zero); optionally an intercept-like constant column in front
+        for j in range(p):
+            idx = list(range(n)); rng.shuffle(idx)
+            c = rng.choice([1.0, 30.0, 40.0]) if kind == "const+contrasts" else 1.0
+            X[:, j] = 0.0
+            X[idx[: n // 2], j] = c
+            X[idx[n // 2: 2 * (n // 2)], j] = -c
+        if kind == "const+contrasts":
+            X[:, 0] = 1.0
     elif kind == "scales":
         X = X * np.array([10.0 ** rng.choice([-6, -3, 0, 3, 6]) for _ in range(p)])
     if ykind == "sign" and len(set(y)) < 2:
@@ -105,8 +115,14 @@ def oracle(tier, rng, deep=False):
                 coef = w[:pfeat]
                 pen_zero_weight = spec["penalty"] in ("WeightedL1",)       # zero-weight features are unpenalised: exempt
                 bad = [j for j in zero_cols if np.any(coef[j] != 0)]
-                if wm_ and not out["stop"] <= spec["tol"]:
-                    bad = []          # a warm start that is non-zero on a null column may legitimately be returned unconverged (budget)
+                if wm_:
+                    # warm start that is non-zero on a null column (an extension of the property, which is about cold fits): it may
+                    # legitimately be returned unconverged (budget); a converged run is only within tol of zero; and for the non-convex
+                    # penalties a non-zero coefficient on a null column can be stationary (flat part of MCP / SCAD)
+                    if not out["stop"] <= spec["tol"] or spec["penalty"] in ("MCPenalty", "WeightedMCPenalty", "SCAD"):
+                        bad = []
+                    else:
+                        bad = [j for j in zero_cols if np.any(np.abs(coef[j]) > 1e-6)]
                 if bad and not pen_zero_weight:
                     failures.append(dict(site=f"nonzero-on-null-column:{site}", input=inp, observed=dict(w=w.tolist(), columns=bad)))
     return dict(evaluations=ev, distinct_nontrivial=nontriv, failures=failures, samples=[dict(runs=ev)])
